@@ -93,6 +93,13 @@ def gen_case(rng):
     if nvi > 1 and rng.random() < 0.1:
         r = rng.randrange(nvi)
         t["vi"][r] = -t["vi"][r]               # table data are taken in magnitude
+    if rng.random() < 0.12:
+        # axes written as Python ints (a datasheet with whole amperes / volts): the numeric TYPE of an axis must not matter
+        n = len(t["io"])
+        t["io"] = sorted(rng.sample(range(0, max(n + 2, 5)), n))
+        if nvi > 1 and rng.random() < 0.3:
+            t["vi"] = [int(round(abs(v))) + k for k, v in enumerate(sorted(t["vi"], key=abs))]
+            t["io"] = [float(x) + 0.5 for x in t["io"]]
     return kind, z, t
 
 
